@@ -436,14 +436,15 @@ func sources(v ssa.Value, o deriveOpts) []ssa.Value {
 			leaves = append(leaves, v)
 		case *ssa.Alloc:
 			// slice literal backing array (variadic args): elements stored
-			for _, s := range storesToElems(x) {
+			es := storesToElems(x)
+			for _, s := range es {
 				walk(s, d)
 			}
 			st := storesTo(x)
 			for _, s := range st {
 				walk(s, d)
 			}
-			if len(st) == 0 {
+			if len(st)+len(es) == 0 {
 				leaves = append(leaves, v)
 			}
 		default:
